@@ -568,7 +568,7 @@ PROPS["C17"] = {
 PROPS["C20"] = {
     "lean": ["TinkVerif.Props.C20"],
     "theorems": T("TinkVerif.Rand", "fields_flatten fields_getElem windows_disjoint positions_injective field_byte fields_congr "
-                  "fields_eq_iff_windows_eq fieldAt_layout aeadField_encryptWith aeadField_etm aeadField_xaes streamHeader_layout "
+                  "fields_eq_iff_windows_eq fields_window_injective fields_window_surjective fields_lengths fieldAt_layout aeadField_encryptWith aeadField_etm aeadField_xaes streamHeader_layout "
                   "drawId_fresh drawId_first ids_pairwise_distinct"),
     "harness": [{"name": "c20", "timeout": 3000}],
     "rule": "with crypto/rand.Reader replaced by a recording tape: for every randomized AEAD key type (AES-GCM, AES-GCM-SIV, ChaCha20-/"
@@ -589,7 +589,8 @@ PROPS["C20"] = {
         "text": "Partial by nature (distribution is not a theorem about code). Theorems over every tape and every history of draws of any "
                 "lengths: the random fields of a history are, concatenated, exactly the tape window consumed; draw i is the window at its "
                 "own offset and of its full length; windows of different draws are disjoint and (draw, byte) ↦ tape position is injective "
-                "(no byte of the source reused, none constant or truncated); outputs depend on the window only (replay); ciphertext "
+                "(no byte of the source reused, none constant or truncated); outputs depend on the window only (replay); for fixed draw lengths the map window ↦ tuple of fields is a "
+                "bijection (injective and surjective: counting form of 'uniform window ⇒ uniform independent fields'); ciphertext "
                 "layouts return the drawn nonce; newRandomKeyID returns the first available drawn word and ids of one manager are pairwise "
                 "distinct after any history (C11 invariant). Tie: real code under a recording tape must consume and place bytes exactly as "
                 "the model says.",
